@@ -1,7 +1,11 @@
-"""Thorough tier: checker self-test.  Applies every seeded change under /verif/seeded/*/patch.diff (and the
-built-in variants of vp.variants) to a scratch copy of the current /repo sources outside /repo and /verif, runs
-the rules of the property on the copy and compares with the recorded expectation (which rule must fire, or that
-the change is a documented miss).  The scratch copy is removed afterwards."""
+"""Thorough tier: checker self-test.
+
+Applies (a) every seeded change under /verif/seeded/*/patch.diff whose meta.json lists this property and (b) the
+built-in variants of vp.variants to scratch copies of the *current* /repo sources (under $TMPDIR, outside /repo
+and /verif, removed afterwards), runs the property's rules on the copy and compares with the expectation: the
+rule must fire and name the construct (exit 1) for breaking variants, and stay silent (exit 0) for
+behaviour-preserving twins.  C variants are re-parsed by clang, so they are known to compile.  A variant whose
+anchor text no longer exists in the current tree is reported as skipped."""
 from __future__ import annotations
 
 import glob
@@ -10,6 +14,7 @@ import os
 import shutil
 import subprocess
 import tempfile
+from concurrent.futures import ThreadPoolExecutor
 
 from . import core
 
@@ -21,49 +26,68 @@ def _scratch():
     return d
 
 
-def run(prop):
-    import importlib
-    info = {"variants": [], "failed": []}
-    seeded = sorted(glob.glob(os.path.join(core.VERIF, "seeded", "*", "meta.json")))
+def _one(prop, name, patch, expect, variant):
+    d = _scratch()
     try:
-        from . import variants
-        builtin = variants.for_property(prop)
-    except ImportError:
-        builtin = []
+        if patch:
+            p = subprocess.run(["patch", "-p1", "-s", "-d", d, "-i", patch], stdout=subprocess.PIPE, stderr=subprocess.PIPE)
+            if p.returncode != 0:
+                return {"name": name, "result": "skipped: patch does not apply to the current tree"}
+        else:
+            from .variants import Skip
+            try:
+                variant["apply"](d)
+            except Skip as e:
+                return {"name": name, "result": "skipped: %s" % e}
+        env = dict(os.environ, VP_REPO=d, VP_EVIDENCE_DIR=os.path.join(d, "_ev"), VERIF_TIER="quick")
+        p = subprocess.run(["/venv/bin/python", "-B", "-m", "vp.main", prop, "--tier", "quick", "--repo", d,
+                            "--evidence-dir", os.path.join(d, "_ev")], cwd=core.VERIF, env=env, stdout=subprocess.PIPE,
+                           stderr=subprocess.STDOUT)
+        out = p.stdout.decode("utf-8", "replace")
+        fired = sorted({l.split("[")[1].split("]")[0] for l in out.splitlines() if l.strip().startswith("violation:") and "[" in l})
+        got = {0: "silent", 1: "violation", 2: "analysis-error"}.get(p.returncode, "exit %d" % p.returncode)
+        ok = got == expect
+        want_rules = (variant or {}).get("rules") or []
+        mine = [r for r in want_rules if r.startswith(prop + ".")]
+        if ok and expect == "violation" and mine and not any(r in fired for r in mine):
+            ok = False
+        res = {"name": name, "expected": expect, "got": got, "rules_fired": fired, "ok": ok}
+        if not ok and got == "analysis-error":
+            res["detail"] = [l for l in out.splitlines() if "ANALYSIS-ERROR" in l][:2]
+        return res
+    finally:
+        shutil.rmtree(d, ignore_errors=True)
+
+
+def run(prop):
+    info = {"variants": [], "failed": []}
     todo = []
-    for mp in seeded:
+    for mp in sorted(glob.glob(os.path.join(core.VERIF, "seeded", "*", "meta.json"))):
         with open(mp) as f:
             meta = json.load(f)
-        if prop in meta.get("checked_by", [meta.get("property")]):
-            todo.append(("seeded:" + os.path.basename(os.path.dirname(mp)), os.path.join(os.path.dirname(mp), "patch.diff"),
-                         meta.get("expect", {}).get(prop, meta.get("expect_default", "violation")), None))
-    for v in builtin:
+        exp = meta.get("expect", {})
+        if prop in exp:
+            todo.append(("seeded:" + meta.get("id", os.path.basename(os.path.dirname(mp))),
+                         os.path.join(os.path.dirname(mp), "patch.diff"), exp[prop], None))
+    from . import variants
+    for v in variants.for_property(prop):
         todo.append(("builtin:" + v["name"], None, v.get("expect", "violation"), v))
-    for name, patch, expect, v in todo:
-        d = _scratch()
-        try:
-            if patch:
-                p = subprocess.run(["git", "apply", "--unsafe-paths", "--directory=" + d, patch], cwd="/", stdout=subprocess.PIPE,
-                                   stderr=subprocess.PIPE)
-                if p.returncode != 0:
-                    p = subprocess.run(["patch", "-p1", "-d", d, "-i", patch], stdout=subprocess.PIPE, stderr=subprocess.PIPE)
-                if p.returncode != 0:
-                    info["variants"].append({"name": name, "result": "patch does not apply to the current tree (skipped)"})
-                    continue
-            else:
-                v["apply"](d)
-            env = dict(os.environ, VP_REPO=d, VP_EVIDENCE_DIR=os.path.join(d, "_ev"))
-            p = subprocess.run(["/venv/bin/python", "-B", "-m", "vp.main", prop, "--tier", "quick", "--repo", d,
-                                "--evidence-dir", os.path.join(d, "_ev")], cwd=core.VERIF, env=env, stdout=subprocess.PIPE,
-                               stderr=subprocess.STDOUT)
-            out = p.stdout.decode("utf-8", "replace")
-            fired = sorted({l.split("[")[1].split("]")[0] for l in out.splitlines() if l.strip().startswith("violation:") and "[" in l})
-            got = {0: "silent", 1: "violation", 2: "analysis-error"}.get(p.returncode, "exit %d" % p.returncode)
-            ok = (got == expect) or (isinstance(expect, list) and got in expect)
-            info["variants"].append({"name": name, "expected": expect, "got": got, "rules_fired": fired})
-            if not ok:
-                info["failed"].append("%s: expected %s, got %s (rules fired: %s)" % (name, expect, got, fired))
-        finally:
-            shutil.rmtree(d, ignore_errors=True)
-    info["n_variants"] = len(info["variants"])
+    with ThreadPoolExecutor(max_workers=int(os.environ.get("VP_JOBS", "16"))) as ex:
+        results = list(ex.map(lambda t: _one(prop, *t), todo))
+    for res in results:
+        info["variants"].append(res)
+        if res.get("ok") is False:
+            info["failed"].append("%s: expected %s, got %s (rules fired: %s) %s" % (
+                res["name"], res.get("expected"), res.get("got"), res.get("rules_fired"), res.get("detail", "")))
+    info["n_variants"] = len(results)
+    info["n_skipped"] = sum(1 for r in results if str(r.get("result", "")).startswith("skipped"))
+    info["n_fired_as_expected"] = sum(1 for r in results if r.get("ok") and r.get("expected") == "violation")
+    info["n_silent_twins"] = sum(1 for r in results if r.get("ok") and r.get("expected") == "silent" and r["name"].startswith("builtin:"))
+    info["n_documented_misses"] = sum(1 for r in results if r.get("ok") and r.get("expected") == "silent" and r["name"].startswith("seeded:"))
+    print("-- self-test %s: %d variants, %d fired as expected, %d silent twins, %d documented misses (seeded, value-level), %d skipped, "
+          "%d FAILED" % (prop, len(results), info["n_fired_as_expected"], info["n_silent_twins"], info["n_documented_misses"],
+                         info["n_skipped"], len(info["failed"])))
+    for r in results:
+        if str(r.get("result", "")).startswith("skipped"):
+            print("   skipped %s (%s)" % (r["name"], r["result"]))
     return info
